@@ -42,7 +42,7 @@ def confirm(pid, head):
             sh('git checkout -q -- . ; git reset -q --hard', cwd=wt)
             continue
         tmp = '/tmp/_seed_%s.diff' % sid
-        sh('git add -N . ; git diff > %s ; git reset -q' % tmp, cwd=wt)   # through the shell: CRLF data files must keep their line ends
+        sh('git add -N athlib js json ; git diff -- athlib js json > %s ; git reset -q' % tmp, cwd=wt)   # through the shell: CRLF data files must keep their line ends
         rcs, outs = sh('/venv/bin/python -m pytest -q -p no:cacheprovider --timeout=900 --continue-on-collection-errors --ignore=OUT 2>&1 | tail -3', cwd=wt, env=env)
         suite = [l for l in outs.splitlines() if 'passed' in l or 'failed' in l][-1:]
         rc1, out1 = sh('/venv/bin/python OUT/m%d_demo.py' % k, cwd=wt, env=env, timeout=900)
